@@ -758,6 +758,11 @@ def call(f: T, *args: T) -> T:
             args[2].args[1].op == "const" and args[2].args[1].args[0] == 1:
         return getitem(args[0], mk("tuple", mk("slice", NONE, NONE, NONE), args[1]))     # take(x, i, axis=1) is x[:, i]
 
+    if f.op == "name" and f.args[0] == "builtins.slice" and 1 <= len(args) <= 3 and not any(a_.op in ("kw", "star") for a_ in args):
+        # slice(stop) / slice(start, stop[, step]) is the subscript form start:stop:step
+        if len(args) == 1:
+            return mk("slice", NONE, args[0], NONE)
+        return mk("slice", args[0], args[1], args[2] if len(args) == 3 else NONE)
     t = mk("call", f, *args)
     t = _canon_where(t)
     return _canon_average(t) if t.op == "call" else t
@@ -2469,10 +2474,49 @@ class Evaluator:
         return f.op == "phi" and len(f.args) == 3 and all(
             isinstance(x, T) and self._closure_choice(x, depth + 1) for x in f.args[1:])
 
+    _ARRAY_ANNOTATIONS = ("jax.Array", "jnp.ndarray", "Array", "jax.numpy.ndarray", "np.ndarray", "numpy.ndarray",
+                          "jnp.array", "complex", "float")
+    _ARRAY_RESULT_FNS = ("where", "array", "asarray", "exp", "einsum", "zeros", "ones", "sum", "abs", "absolute", "real",
+                         "imag", "stack", "concatenate", "dot", "matmul", "linalg.det", "linalg.inv", "zeros_like",
+                         "ones_like", "sqrt", "log", "cos", "sin", "angle", "conj", "vstack", "hstack", "reshape")
+
+    def _static_isinstance(self, fr, x: T, c: T) -> Optional[bool]:
+        """isinstance(x, list / tuple / (list, tuple)) when the container kind of x is visible in its term: a list or
+        tuple display / comprehension, or the result of an array function or of a package callee annotated to return an
+        array.  None: not decidable here (the call term is kept)."""
+        cs = list(c.args) if c.op == "tuple" else [c]
+        names = set()
+        for q in cs:
+            if q.op != "name" or q.args[0] not in ("builtins.list", "builtins.tuple"):
+                return None
+            names.add(q.args[0].split(".")[-1])
+        x = transparent(x) if x.op == "call" else x
+        if x.op in ("list", "comp"):
+            return "list" in names
+        if x.op == "tuple":
+            return "tuple" in names
+        if x.op == "call":
+            fn = array_fn(x)
+            if fn in self._ARRAY_RESULT_FNS:
+                return False
+            try:
+                cands = self.resolve_callees(transparent(x.args[0]), fr)
+            except Exception:  # noqa
+                cands = None
+            if cands and all(ci is not None and getattr(ci, "node", None) is not None and
+                             getattr(ci.node, "returns", None) is not None and
+                             ast.unparse(ci.node.returns) in self._ARRAY_ANNOTATIONS for ci, _ in cands):
+                return False
+        return None
+
     def apply(self, fr: Frame, f: T, args: List[T], kws: List[T], line: int) -> T:
         """Apply callee term f.  Local closures are inlined; everything else
         becomes a call term (and an event)."""
         # transparent wrappers: jit(f) / checkpoint(f) -> f ; partial(f, a..) kept as term
+        if f.op == "name" and f.args[0] == "builtins.isinstance" and len(args) == 2 and not kws:
+            v_ = self._static_isinstance(fr, args[0], args[1])
+            if v_ is not None:
+                return const(v_)
         if f.op == "phi" and len(f.args) == 3 and self._depth < self.MAX_INLINE_DEPTH and self._closure_choice(f):
             # a local function chosen by an earlier if / elif chain and called here: the call is that chain around the
             # calls of the candidates
